@@ -10,6 +10,8 @@ import math
 from fractions import Fraction
 
 NAN = (0, 0)
+# the abstract value of a quantity name the user explicitly set to the empty string ('' itself means: no name)
+EMPTYNAME = "EMPTY_NAME"
 PINF = (1, 0)
 NINF = (-1, 0)
 
